@@ -58,6 +58,17 @@ def succ(c):
     return 1 if c in (0, 7) else c + 1
 
 
+def report(ctx, what, case, observed, cls):
+    """an oracle failure.  core keeps only the first 50 failures of a run for the verdict; failures of a known
+    class beyond the first few are therefore only counted, so that a failure outside the known classes is never
+    crowded out of that list"""
+    key = "oracle-fail:" + cls if cls else None
+    if key and ctx.stats[key] >= 4:
+        ctx.stats[key] += 1
+        return
+    ctx.require(False, what, case, observed, cls)
+
+
 # ----------------------------------------------------------------------------------------------------------
 # cycle
 # ----------------------------------------------------------------------------------------------------------
@@ -274,8 +285,8 @@ def oracle_terminal(ctx, case, out):
 _tls = threading.local()
 
 
-class Quit(BaseException):
-    pass
+class Quit(SystemExit):
+    """ends a participant from inside a scheduling point (asyncio lets SystemExit through)"""
 
 
 class EmuFS:
@@ -427,6 +438,8 @@ class Worker:
         self.current = None      # task running since the last grant (None: LockFile.__init__)
         self.credit = False      # the step just granted has not yet performed its operation
         self.granted = False
+        self.quitting = False
+        self.ts = []
 
     # -- protocol ------------------------------------------------------------------------------------------
     def flush(self):
@@ -436,18 +449,28 @@ class Worker:
             self.comm.send(["done", ev])
 
     def sched_point(self):
+        if self.quitting:
+            raise OSError("participant is being torn down")
         if self.credit:
             self.credit = False
             return
         self.flush()
         while True:
-            cmd = self.comm.recv()
+            cmd = self.recv()
             if cmd[0] == "quit":
                 raise Quit()
             if self.current is None or cmd[1] == self.current:
                 self.granted = True
                 return
             self.comm.send(["noop", []])
+
+    def recv(self):
+        if self.quitting:
+            return ["quit"]
+        cmd = self.comm.recv()
+        if cmd[0] == "quit":
+            self.quitting = True
+        return cmd
 
     def gate(self, t):
         f = self.loop.create_future()
@@ -547,7 +570,7 @@ class Worker:
             self.ev(f"!{self.p}:{type(ex).__name__}")
         ts = []
         if pl is not None:
-            ts = [self.loop.create_task(self.user(t, secs, pl)) for t, secs in enumerate(self.tasks)]
+            ts = self.ts = [self.loop.create_task(self.user(t, secs, pl)) for t, secs in enumerate(self.tasks)]
         try:
             while True:
                 for _ in range(6):
@@ -555,7 +578,7 @@ class Worker:
                 self.credit = False
                 self.current = -1
                 self.flush()
-                cmd = self.comm.recv()
+                cmd = self.recv()
                 if cmd[0] == "quit":
                     break
                 f = self.gates.pop(cmd[1], None)
@@ -580,6 +603,18 @@ class Worker:
         except BaseException as ex:      # a harness problem, never silently dropped
             self.comm.send(["crash", [f"X{self.p}:{type(ex).__name__}:{ex}"]])
         finally:
+            self.quitting = True
+            try:
+                pending = asyncio.all_tasks(self.loop)
+                for t in pending:
+                    t.cancel()
+                if pending:
+                    self.loop.run_until_complete(asyncio.gather(*pending, return_exceptions=True))
+                for t in self.ts:
+                    if t.done() and not t.cancelled():
+                        t.exception()
+            except BaseException:
+                pass
             try:
                 self.loop.close()
             except Exception:
@@ -813,7 +848,7 @@ def oracle_cross(ctx, case, out):
             cls = "same-process-tasks"
         else:
             cls = None
-        ctx.require(False, f"cross-process exchanges not serialised/counted ({kind}): {text}", case, out, cls)
+        report(ctx, f"cross-process exchanges not serialised/counted ({kind}): {text}", case, out, cls)
     return fails
 
 
@@ -860,8 +895,8 @@ def oracle_addr(ctx, case, out):
     from ebpfcat.ebpfcat import ParallelEtherCat
     lo, hi = ParallelEtherCat.terminal_addr_range
     cls = "addr-upper-bound" if case["no"] == hi else None
-    ctx.require(out == "ok", f"address {case['no']} from randint({lo}, {hi}) is refused as a mailbox lock: {out}",
-                case, out, cls)
+    if out != "ok":
+        report(ctx, f"address {case['no']} from randint({lo}, {hi}) is refused as a mailbox lock: {out}", case, out, cls)
 
 
 # ----------------------------------------------------------------------------------------------------------
